@@ -521,8 +521,56 @@ func (w *c15World) rewatch(i int, cancel bool) {
 	if !w.waitWatches(nb+1, "re-watch") {
 		return
 	}
-	w.live[i] = w.etcd.watchesFrom(nb)[0]
+	nw := w.etcd.watchesFrom(nb)[0]
+	w.live[i] = nw
 	w.nRewatch++
+	// The new stream replays what etcd has after the revision it asks for. For plain
+	// subscribers a replay is idempotent. An exclusive subscriber that joined later
+	// than that revision now sees older registrations again (e.g. a publisher that
+	// registered the value and expired before it joined), which may legitimately move
+	// or drop the owner: both the view without and with the replay are accepted.
+	var replay []c15Ev
+	for _, ev := range w.etcd.events(nw.cursor, w.delivered) {
+		if nw.wants(ev) {
+			replay = append(replay, ev)
+		}
+	}
+	if len(replay) > 0 {
+		for _, s := range w.subs {
+			if !s.excl || !nw.wants(c15Ev{key: s.svc + "/"}) {
+				continue
+			}
+			before := s.own
+			s.own = map[string]map[string]bool{}
+			for v, o := range before {
+				c := map[string]bool{}
+				for k := range o {
+					c[k] = true
+				}
+				s.own[v] = c
+			}
+			for _, ev := range replay {
+				if ev.del {
+					s.mDel(ev.key, w.valOf[ev.key])
+				} else {
+					s.mAdd([]string{ev.key}, ev.val)
+				}
+			}
+			for v, o := range before {
+				if s.own[v] == nil {
+					s.own[v] = map[string]bool{}
+				}
+				for k := range o {
+					s.own[v][k] = true
+				}
+			}
+			for v, o := range s.own {
+				if _, had := before[v]; !had {
+					o[""] = true // without the replay the value was not known at all
+				}
+			}
+		}
+	}
 	if !w.pump(w.delivered, w.r.Intn(3)) {
 		return
 	}
